@@ -290,7 +290,7 @@ pub fn gen_scripts(env: &Env, owner: &TypeDecl, m: &Method, rng: &mut Rng) -> Ve
         .collect()
 }
 
-fn rust_method(env: &Env, abi: &str, m: &Method, scripts: &[Script], plain: bool) -> String {
+fn rust_method(env: &Env, abi: &str, m: &Method, scripts: &[Script], plain: bool, self_as: Option<&str>) -> String {
     let mut lts = vec![];
     if let Some(s) = &m.self_param {
         if let Lt::Named(n) = &s.lt { lts.push(n.clone()); }
@@ -302,8 +302,32 @@ fn rust_method(env: &Env, abi: &str, m: &Method, scripts: &[Script], plain: bool
     if let Some(s) = &m.self_param {
         args.push(if s.by_ref { format!("&{}{}self", s.lt.amp(), if s.mutable { "mut " } else { "" }) } else { "self".to_string() });
     }
-    for (n, t) in &m.params { args.push(format!("{n}: {}", t.rust())); }
-    let ret = match &m.ret { None => String::new(), Some(t) => format!(" -> {}", t.rust()) };
+    // the owner's name spelled `Self` in the signature (parsed as `TypeName::SelfType`)
+    let spell = |t: String| -> String {
+        match self_as {
+            None => t,
+            Some(owner) => {
+                let mut out = String::new();
+                let b = t.as_bytes();
+                let mut i = 0;
+                while i < t.len() {
+                    if t[i..].starts_with(owner)
+                        && (i == 0 || !(b[i - 1].is_ascii_alphanumeric() || b[i - 1] == b'_'))
+                        && (i + owner.len() >= t.len() || !(b[i + owner.len()].is_ascii_alphanumeric() || b[i + owner.len()] == b'_'))
+                    {
+                        out += "Self";
+                        i += owner.len();
+                    } else {
+                        out.push(b[i] as char);
+                        i += 1;
+                    }
+                }
+                out
+            }
+        }
+    };
+    for (n, t) in &m.params { args.push(format!("{n}: {}", spell(t.rust()))); }
+    let ret = match &m.ret { None => String::new(), Some(t) => format!(" -> {}", spell(t.rust())) };
     if plain {
         return format!("        pub fn {}{generics}({}){ret} {{ unimplemented!() }}\n", m.name, args.join(", "));
     }
@@ -385,7 +409,9 @@ pub fn prepare(m: &mut Module, rng: &mut Rng) {
     for t in &mut m.types {
         if let Def::Enum { variants } = &mut t.def {
             // explicit, negative, gapped and implicit-after-explicit discriminants
-            let shapes: [&[&str]; 6] = [&["Va", "Vb"], &["Va = 3", "Vb"], &["Va", "Vb = 404", "Vc"], &["Va = -2", "Vb = 7"], &["Va = 1", "Vb", "Vc = 100", "Vd"], &["Va = 2147483646", "Vb"]];
+            let shapes: [&[&str]; 8] = [&["Va", "Vb"], &["Va = 3", "Vb"], &["Va", "Vb = 404", "Vc"], &["Va = -2", "Vb = 7"], &["Va = 1", "Vb", "Vc = 100", "Vd"], &["Va = 2147483646", "Vb"],
+                // not in ascending order: the first and last declared values are not the smallest and largest
+                &["Va = 0", "Vb = 5", "Vc = 2"], &["Va = 2", "Vb = 1", "Vc = 0"]];
             *variants = rng.pick(&shapes).iter().map(|s| s.to_string()).collect();
         }
         if let Def::Struct { fields, .. } = &mut t.def {
@@ -466,14 +492,16 @@ impl Case {
             }
             if !t.methods.is_empty() {
                 s += &format!("    impl {} {{\n", t.name);
-                for m in &t.methods {
+                for (mi, m) in t.methods.iter().enumerate() {
                     if m.name == HELPER_MK {
                         s += &format!("        pub fn {HELPER_MK}(tag: u32) -> Box<{}> {{ Box::new({} {{ tag }}) }}\n", t.name, t.name);
                     } else if m.name == HELPER_TAG {
                         s += &format!("        pub fn {HELPER_TAG}(&self) -> u32 {{ self.tag }}\n");
                     } else {
                         let abi = abi_name(&self.prefix, &t.name, &m.name);
-                        s += &rust_method(&env, &abi, m, &self.scripts[&(t.name.clone(), m.name.clone())], bridge_only);
+                        // every other method spells its own type `Self`
+                        let self_as = if mi % 2 == 1 { Some(t.name.as_str()) } else { None };
+                        s += &rust_method(&env, &abi, m, &self.scripts[&(t.name.clone(), m.name.clone())], bridge_only, self_as);
                     }
                 }
                 s += "    }\n";
